@@ -192,7 +192,7 @@ func AnalyzePool(p *load.Program, r *Roles, depth int) *UnitResult {
 					}
 				}
 			case "go":
-				chk(c, "C08.R1,C09.R6", con("go"), false, ev, "Submit starts a goroutine: concurrency is no longer bounded by the workers, and tasks no longer enter the queue in submission order")
+				chk(c, "C08.R1,C09.R6,C12.R9", con("go"), false, ev, "Submit starts a goroutine: concurrency is no longer bounded by the workers, and tasks no longer enter the queue in submission order")
 			case "return":
 				chk(c, "C12.R2,C09.R6", con("return"), sends == 1, ev, fmt.Sprintf("Submit returns after enqueuing the task %d times (want exactly once on every path)", sends))
 			}
@@ -324,7 +324,7 @@ func AnalyzePool(p *load.Program, r *Roles, depth int) *UnitResult {
 	if goInstr != nil {
 		where = posStr(p.Position(goInstr.Pos()))
 	}
-	col.Check("C08.R1", "package:go-statements", okGo, p.Position(r.FnNewWorkerPool.Pos()),
+	col.Check("C08.R1,C12.R9", "package:go-statements", okGo, p.Position(r.FnNewWorkerPool.Pos()),
 		fmt.Sprintf("the package must start goroutines only in the pool constructor (found %d go statements, last at %s in %s)", goSites, where, funcLabelOrNone(goFn)), nil)
 	if goInstr != nil {
 		workerFn = goInstr.Common().StaticCallee()
